@@ -77,17 +77,6 @@ PENDING_FINDINGS = {
         'its fields appear in the typelib (start_union only links a node into the module when node_stack == NULL)',
     'absent:anonymous-member:record-in-union':
         'an anonymous struct member of a union (<record> inside <union>) is parsed and then dropped from the typelib',
-    'typelib:function-after-callback-field-taken-as-embedded-callback':
-        'since fix b00e44e a function pointer member of a union / boxed / interface is compiled as a gpointer field and its <callback> '
-        'skipped, but ctx->current_typed keeps pointing at that field: the next <method>/<function>/<constructor> of the union is '
-        'attached to the field as its embedded callback (start_function: `else if (ctx->current_typed) field->callback = function`) '
-        'instead of becoming a method — the method is missing, the field claims an embedded type, and the repository API aborts in '
-        'g_type_info_get_interface ("code should not be reached")',
-    'compiler:fatal:invalid-signal-run-flags:when=must-collect':
-        'a signal the runtime dump reports with when="must-collect" (gdump.c writes that for a signal that has G_SIGNAL_MUST_COLLECT and '
-        'none of RUN_FIRST/RUN_LAST/RUN_CLEANUP; the scanner copies it) gets no run flag from start_glib_signal (since fix b4a410c), and '
-        'the compiler then dies validating its own output: "Invalid typelib for module ...: Invalid signal run flags" '
-        '(gitypelib.c validate_signal_blob demands exactly one of the three)',
     'compiler:error:reference-to-introspectable-0:class:class-parent':
         'a class annotated (skip) keeps introspectable subclasses: <class parent="X"> with X introspectable="0"; '
         'the compiler drops X and fails with "type reference \'X\' not found"',
@@ -1332,9 +1321,10 @@ def cmp_signal(d, path, c, s):
     elif when.lower() == 'cleanup':
         exp = (False, False, True)
     else:
-        # when="must-collect" (gdump.c writes it for a signal with none of the three run flags): a typelib has no
-        # bit for G_SIGNAL_MUST_COLLECT, the same flags = no run phase
-        exp = (False, False, False)
+        # when="must-collect" (gdump.c writes it for a signal that names none of the three run phases): not a run phase;
+        # a typelib has no bit for G_SIGNAL_MUST_COLLECT and a signal blob names exactly one phase (validate_signal_blob),
+        # so the signal is in the default phase, as if `when` were absent: LAST
+        exp = (False, True, False)
     got = (s.get('run_first'), s.get('run_last'), s.get('run_cleanup'))
     if exp != got:
         d.add('flag:signal:when=%s:typelib=%s' % (when, got), '%s: when=%r, typelib run_first/last/cleanup=%r' % (path, when, got))
@@ -2261,9 +2251,9 @@ def run(ctx):
         'union is a gpointer field in the typelib (only record and class fields can embed a callback)',
         'hypothesis of the contract theorems: no scanner output has records/unions inside <interface>, nor an '
         '<instance-parameter> with a transfer-ownership other than none/full (checked on every GIR)',
-        'glib:signal when="must-collect" (written by gdump.c for a signal that runs in none of the three phases): SignalBlob has no '
-        'bit for G_SIGNAL_MUST_COLLECT, so the oracle expects none of run_first / run_last / run_cleanup to be set (at HEAD the '
-        'compiler does not get that far: pending finding compiler:fatal:invalid-signal-run-flags:when=must-collect)',
+        'glib:signal when="must-collect" (written by gdump.c for a signal that names none of the three run phases): it is not a run '
+        'phase, SignalBlob has no bit for G_SIGNAL_MUST_COLLECT and must name exactly one phase, so the oracle expects the default '
+        'phase, as for a signal without `when`: run_last',
         'a method is expected to be flagged getter/setter of a property only when that property is introspectable (present) in the '
         'same class or interface',
         'the repository API answers for parameters: allow-none="1" is only the legacy spelling; where nullable/optional are written '
